@@ -419,6 +419,39 @@ example : getstate [[("f", .fx 3)]] ⟨[], 0, some ["f", "f"]⟩ = .error .keyEr
 example : getstate [[("f", .plain 3)]] ⟨[], 0, some ["f"]⟩ = .error .assertionError := by decide
 example : getstate [[("f", .fx 3)]] ⟨[], 0, some ["g"]⟩ = .error .attributeError := by decide
 
+/-- The serialised state reflects the module AS IT IS NOW, not as it was when it was first copied: for a
+registered module, for every earlier copy (pickle / deepcopy / torch.save of the same object) and every in-place
+conversion `f` of the tensors owned by its generated children (`m.double()`, `m.to(dtype)`) applied afterwards,
+a second copy succeeds and holds exactly the CONVERTED children under the same names — `__getstate__` is a
+function of the current heap content, not of the identity of the object. -/
+theorem copy_convert_copy (h : Heap) (o : Obj) (names : List String) (ms : Modules) (hr : Registered h o names ms)
+    (f : Nat → Nat) :
+    ∃ h1 o1 h3 o3, roundtrip h o = .ok (h1, o1) ∧ roundtrip (retype f h1 o) o = .ok (h3, o3) ∧
+      o3.codegen = some names ∧
+      ∀ k, ((h3[o3.modules]?).getD []).getKey? k = ((ms.getKey? k).map (Sub.retype f)) := by
+  obtain ⟨h1, hrt1, _, hold1⟩ := roundtrip_spec h o names ms hr
+  have hlt : o.modules < h.length := (List.getElem?_eq_some_iff.1 hr.live).1
+  have hr1 : Registered h1 o names ms := ⟨(hold1 _ hlt).trans hr.live, hr.listed, hr.nodup, hr.code⟩
+  have hr2 := registered_retype f h1 o names ms hr1
+  obtain ⟨h3, hrt3, hres, _⟩ := roundtrip_spec (retype f h1 o) o names (retypeMods f ms) hr2
+  refine ⟨h1, _, h3, _, hrt1, hrt3, rfl, fun k => ?_⟩
+  simp only [hres, Option.getD_some]
+  rw [roundtrip_same_children (retypeMods f ms) names hr2.code k, getKey?_retypeMods]
+
+/-- non-vacuity, and what the theorem excludes: with a serialisation cache keyed by the child's identity (the seeded
+change C14-2) the SAME history — copy, convert in place (payload 10 ↦ 64), copy again — hands out the stale
+payload 10; the code as written hands out 64.  (fx children are not cached by that change and stay correct.) -/
+example :
+    let h : Heap := [[("w3j_code", .ts 10), ("fxcode", .fx 10)]]
+    let o : Obj := ⟨[], 0, some ["w3j_code", "fxcode"]⟩
+    let f : Nat → Nat := fun _ => 64
+    (∃ c1 h1 o1 c3 h3 o3, roundtripMemo [] h o = .ok (c1, h1, o1) ∧
+        roundtripMemo c1 (retype f h1 o) o = .ok (c3, h3, o3) ∧
+        (h3[o3.modules]?).getD [] = [("w3j_code", .ts 10), ("fxcode", .fx 64)]) ∧
+    (∃ h1 o1 h3 o3, roundtrip h o = .ok (h1, o1) ∧ roundtrip (retype f h1 o) o = .ok (h3, o3) ∧
+        (h3[o3.modules]?).getD [] = [("w3j_code", .ts 64), ("fxcode", .fx 64)]) := by
+  refine ⟨⟨_, _, _, _, _, _, rfl, rfl, by decide⟩, ⟨_, _, _, _, rfl, rfl, by decide⟩⟩
+
 end Codegen
 
 end E3nnVerif.Props.C14
